@@ -560,9 +560,14 @@ def run(M, rep, tier, only=None):
                 txt = " ".join(sorted(names)) + " ".join(show(a) for a, v in p.decisions)
                 if "create_property" in txt:
                     sawc = True
-                if "Property.values@set" in txt or "values@set" in txt:
-                    sawa = True
-            if not (sawc and sawa):
+                if ("Property.values@set" in txt or "values@set" in txt) and "create_property" not in txt:
+                    sawa = True         # assignment to the existing property, not the initial assignment inside a creation
+                dels = [e for e in p.events if e.kind == "layer" and e.op.split(".")[-1] in ("delete", "delete_all", "__delitem__")]
+                if dels:
+                    bad = (p, "assigning to section[key] deletes something (%s): the existing property -- with its unit, definition, "
+                              "uncertainty and id -- is thrown away instead of being assigned to, and a refused assignment leaves "
+                              "nothing behind" % dels[0].op)
+            if bad is None and not (sawc and sawa):
                 bad = (paths[0], "assignment does not create a missing property / assign to an existing one (create=%s, assign=%s)" % (sawc, sawa))
         rep.check(R5, key, bad is None, bad[1] if bad else "", site=f.file + ":%d" % f.node.lineno,
                   detail=describe_path(bad[0]) if bad else None, what=table[name])
